@@ -1,12 +1,13 @@
 (* C11 — Formatting options change whitespace only, in the documented way.
    The option space is finite (2 x 2 x 2 x 9 = 72 vectors) and the fill table is REGENERATED on every run by
    running the real Formatter on every vector; the facts below are re-decided on that table.
-   PARTIAL: "the outputs are identical once insignificant whitespace is removed" is decided by the
-   correspondence (all 72 vectors, squeeze-equality of the real outputs) and not yet by a theorem about the
-   printer; the theorems here pin the fills (what the options can influence at all). *)
+   The printers (Property.fmt, Identifier.fmt, Block.fmt with the @media re-indentation, Formatter.format) use the
+   fills only as whitespace: C11_whitespace_only is the property on the formatter model, for every object tree.
+   PARTIAL: whitespace inside string literals is erased by the comparison too (that strings are verbatim is C18);
+   the tie of the formatter model to the code is the byte-exact correspondence on all 72 vectors. *)
 From Coq Require Import String.
 From Coq Require Import List Ascii Bool NArith.
-Require Import Model.Text Model.Ident Model.Fmt Proofs.FmtProofs.
+Require Import Model.Text Model.Ident Model.Fmt Proofs.FmtProofs Proofs.WsProofs.
 Import ListNotations.
 Local Open Scope char_scope.
 
@@ -33,3 +34,17 @@ Print Assumptions C11_default_shape.
 Theorem C11_fills_are_whitespace : forall m x t s, s <= 8 -> row_ok (m, x, t, s) = true.
 Proof. exact fills_row_ok. Qed.
 Print Assumptions C11_fills_are_whitespace.
+
+(* THE PROPERTY on the formatter model: for any two option vectors and any evaluated program (object tree), the two outputs
+   are equal once every whitespace character is removed *)
+Theorem C11_whitespace_only :
+  forall m1 x1 t1 s1 m2 x2 t2 s2 fl1 fl2 objs, s1 <= 8 -> s2 <= 8 ->
+    fills_of (m1, x1, t1, s1) = Some fl1 -> fills_of (m2, x2, t2, s2) = Some fl2 ->
+    erase (format fl1 objs) = erase (format fl2 objs).
+Proof. exact options_change_whitespace_only. Qed.
+Print Assumptions C11_whitespace_only.
+
+(* and for any fills made of whitespace at all *)
+Theorem C11_whitespace_only_any_fills : forall fl1 fl2 objs, ws_fills fl1 -> ws_fills fl2 -> erase (format fl1 objs) = erase (format fl2 objs).
+Proof. exact format_whitespace_only. Qed.
+Print Assumptions C11_whitespace_only_any_fills.
